@@ -681,24 +681,34 @@ class World:
                 self.problem(("C09",), "ended-without-result", f"container {mc.cid} ended {mc.status} without a result")
 
 
-def run_with_choices(case, max_amb=5):
-    """Run a case; if the model met ambiguous (float-boundary) decisions, try the other
-    resolutions before reporting.  Returns (world, problems, status) with status in
-    'ok', 'problems', 'skipped-ambiguous'."""
-    w = World(case)
-    probs = w.run()
-    if not probs or w.n_amb == 0:
-        return w, probs, ("ok" if not probs else "problems")
-    if w.n_amb > max_amb:
-        return w, [], "skipped-ambiguous"
-    first = (w, probs)
-    for ch in itertools.product((0, 1), repeat=max(w.n_amb, 1)):
-        if not any(ch):
+def run_with_choices(case, max_amb=6, max_runs=96):
+    """Run a case; if the model met ambiguous (float-boundary) decisions and the run shows
+    problems, explore the other resolutions before reporting.  The number of decisions met
+    depends on earlier choices (an early OOM cuts the list short, a longer I/O phase adds a
+    limit comparison), so the vectors are explored as a tree: a vector fixes the first
+    len(v) decisions, later ones default to the first candidate, and every later decision
+    actually met spawns a child that flips it.  Returns (world, problems, status) with status
+    in 'ok', 'problems', 'skipped-ambiguous'."""
+    first = None
+    queue = [()]
+    runs = 0
+    too_many = False
+    while queue and runs < max_runs:
+        v = queue.pop(0)
+        w = World(case, v)
+        probs = w.run()
+        runs += 1
+        if first is None:
+            first = (w, probs)
+            if not probs or w.n_amb == 0:
+                return w, probs, ("ok" if not probs else "problems")
+        if not probs:
+            return w, [], "ok"
+        if w.n_amb > max_amb:
+            too_many = True
             continue
-        w2 = World(case, ch)
-        p2 = w2.run()
-        if not p2:
-            return w2, [], "ok"
-        if w2.n_amb > max_amb:
-            return w2, [], "skipped-ambiguous"
+        for j in range(len(v), w.n_amb):
+            queue.append(tuple(v) + (0,) * (j - len(v)) + (1,))
+    if too_many or queue:
+        return first[0], [], "skipped-ambiguous"
     return first[0], first[1], "problems"
